@@ -1125,15 +1125,50 @@ Proof.
   split; apply in_by_existsb; vm_compute; reflexivity.
 Qed.
 
+Lemma bytes_ok_concat_recs ps recs : recs_ok ps recs = true -> bytes_ok (concat recs) = true.
+Proof.
+  unfold recs_ok. induction recs as [|r recs IH]; intros H; [reflexivity|].
+  cbn [forallb] in H. apply andb_true_iff in H as [Hr Hrest]. apply andb_true_iff in Hr as [_ Hr].
+  cbn [concat]. rewrite bytes_ok_app, Hr, (IH Hrest). reflexivity.
+Qed.
+
+(* the writer model only produces bytes *)
+Lemma written_bytes_ok ap h vl fmt recs evl f h' :
+  file_of ap h vl fmt recs evl = Ok f -> final_hdr ap h vl fmt recs evl = Ok h' ->
+  wf_header h' vl = true -> forallb (wf_vlr true) evl = true -> recs_ok (aint h' "point_size") recs = true ->
+  bytes_ok f = true.
+Proof.
+  intros Hf Hh Hwf Hwe Hok.
+  destruct (file_of_inv _ _ _ _ _ _ _ _ Hf Hh) as (hh & bs & eb & E1 & Heb & -> & _).
+  destruct (enc_vlrs_ok true evl Hwe) as (eb' & Heb' & _ & Bok). rewrite Heb in Heb'. injection Heb' as <-.
+  rewrite !bytes_ok_app, Bok, (bytes_ok_concat_recs _ _ Hok), !andb_true_r.
+  destruct (enc_header_inv _ _ _ _ _ E1) as (vb & hs0 & fb & Hv & _ & _ & _ & Hh' & Hfb & ->).
+  unfold wf_header in Hwf.
+  destruct (header_size_tbl (aint h' "version.major") (aint h' "version.minor")) as [x|]; [|discriminate].
+  destruct (std_size (compressed_id_to_uncompressed (aint h' "point_format_id"))) as [std|]; [|discriminate].
+  repeat (apply andb_true_iff in Hwf as [Hwf ?]).
+  assert (aint h' "version.minor" = aint hh "version.minor") as Hmn
+    by (rewrite Hh'; rewrite !aint_aset_other by reflexivity; reflexivity).
+  assert (abytes h' "extra_header_bytes" = abytes hh "extra_header_bytes") as He1
+    by (rewrite Hh'; rewrite !abytes_aset_other by reflexivity; reflexivity).
+  assert (abytes h' "extra_vlr_bytes" = abytes hh "extra_vlr_bytes") as He2
+    by (rewrite Hh'; rewrite !abytes_aset_other by reflexivity; reflexivity).
+  rewrite Hmn in Hwf.
+  destruct (enc_vlrs_ok false vl ltac:(assumption)) as (vb' & Hvb' & _ & Vok). rewrite Hv in Hvb'. injection Hvb' as <-.
+  rewrite !bytes_ok_app, (enc_fields_bytes_ok _ _ _ Hwf Hfb), Vok, <- He1, <- He2.
+  repeat match goal with H : _ = true |- _ => rewrite H end. reflexivity.
+Qed.
+
 Theorem written_files_laid_out : forall ap h vl fmt recs evl f h',
   file_of ap h vl fmt recs evl = Ok f -> final_hdr ap h vl fmt recs evl = Ok h' ->
   wf_header h' vl = true -> forallb (wf_vlr true) evl = true ->
   recs_ok (aint h' "point_size") recs = true -> 0 < aint h' "point_size" ->
   (evl = [] \/ aint h "version.minor" >= 4) -> len evl <= MAX_VLRS ->
-  is_point_format_compressed (aint h' "point_format_id") = false -> bytes_ok f = true ->
+  is_point_format_compressed (aint h' "point_format_id") = false ->
   exists rh, laid_out f rh /\ evlrs_adjacent rh.
 Proof.
-  intros ap h vl fmt recs evl f h' Hf Hh Hwf Hwe Hok Hps Hev4 Hmax Hunc Hbytes.
+  intros ap h vl fmt recs evl f h' Hf Hh Hwf Hwe Hok Hps Hev4 Hmax Hunc.
+  pose proof (written_bytes_ok _ _ _ _ _ _ _ _ Hf Hh Hwf Hwe Hok) as Hbytes.
   destruct (read_write_roundtrip _ _ _ _ _ _ _ _ Hf Hh Hwf Hwe Hok Hps Hev4 Hmax)
     as (lf & Hrf & Hpts & _ & _ & Hcnt & Hpsz & Hoff & Hget).
   destruct (file_of_inv _ _ _ _ _ _ _ _ Hf Hh) as (hh & bs & eb & E1 & Heb & Hfe & Hl & Hc & Hmn & Hev0 & Hev1).
